@@ -439,11 +439,11 @@ Section SepList.
   Hypothesis Hsep_fol : forall t r, tty t = sep -> fol (t :: r).
   Hypothesis Hsep_c : sep <> TComment.
 
-  Lemma sep_list_rec_args : forall ts ns, Args sep R ts ns -> forall fuel acc rest,
+  Lemma sep_list_rec_args : forall ts ns, Args sep R ts ns -> forall fuel prev acc rest,
     (length ns <= fuel)%nat -> fol rest -> nostart [sep] rest ->
-    Parses (sep_list_rec fuel p sep acc) (ts ++ rest) rest (rev acc ++ ns).
+    Parses (sep_list_rec fuel p sep prev acc) (ts ++ rest) rest (rev acc ++ ns).
   Proof.
-    induction 1 as [ts n Hn|ts n cm ts' ns Hn Hcm Hrest IH]; intros fuel acc rest Hf Hfol Hns c Hc;
+    induction 1 as [ts n Hn|ts n cm ts' ns Hn Hcm Hrest IH]; intros fuel prev acc rest Hf Hfol Hns c Hc;
       (destruct fuel as [|f]; [simpl in Hf; lia|]); cbn [sep_list_rec].
     - destruct (Parses_run _ _ _ _ c (Hp ts n rest Hn Hfol) Hc) as (c1 & E1 & Q1). rewrite E1.
       destruct (exp_token_nostart sep rest Hsep_c Hns c1 (quiet_memo _ _ Hc Q1)) as (x & c2 & E2 & Q2 & m & ->).
@@ -453,7 +453,7 @@ Section SepList.
       destruct (Parses_run _ _ _ _ c (Hp ts n (cm :: ts' ++ rest) Hn (Hsep_fol _ _ Hcm)) Hc) as (c1 & E1 & Q1). rewrite E1.
       destruct (Parses_run _ _ _ _ c1 (exp_token_ok sep cm (ts' ++ rest) Hcm) (quiet_memo _ _ Hc Q1)) as (c2 & E2 & Q2).
       rewrite E2. pose proof (quiet_trans _ _ _ Q1 Q2) as Q12.
-      destruct (IH f (n :: acc) rest ltac:(simpl in Hf; lia) Hfol Hns c2 (quiet_memo _ _ Hc Q12)) as (x & c3 & E3 & Q3 & ->).
+      destruct (IH f cm (n :: acc) rest ltac:(simpl in Hf; lia) Hfol Hns c2 (quiet_memo _ _ Hc Q12)) as (x & c3 & E3 & Q3 & ->).
       eexists _, c3. split; [exact E3|]. split; [apply (quiet_trans _ _ _ Q12 Q3)|].
       simpl. rewrite <- app_assoc. reflexivity.
   Qed.
@@ -473,7 +473,7 @@ Section SepList.
       assert (length ns <= S (length (ts' ++ rest)))%nat as Hlen.
       { clear -Hrest. rewrite app_length. induction Hrest as [ts n _|ts n cm ts' ns _ _ _ IH]; simpl; [lia|].
         rewrite app_length. simpl. lia. }
-      destruct (sep_list_rec_args ts' ns Hrest _ [n] rest Hlen Hfol Hns c2 (quiet_memo _ _ Hc Q12)) as (x & c3 & E3 & Q3 & ->).
+      destruct (sep_list_rec_args ts' ns Hrest _ cm [n] rest Hlen Hfol Hns c2 (quiet_memo _ _ Hc Q12)) as (x & c3 & E3 & Q3 & ->).
       eexists _, c3. split; [exact E3|]. split; [apply (quiet_trans _ _ _ Q12 Q3)|reflexivity].
   Qed.
 
